@@ -10,6 +10,12 @@ Three kinds of generated case (field "kind"):
           generated node table.
  unsched  trace.app.zk._unschedule (directly and through publish) on a
           generated placement table.
+ register presence.EndpointPresence.register / register_identity /
+          register_running / register_endpoints of a new container with its
+          own session while nodes of older containers (same or other host,
+          same or different content) are still owned by other sessions that
+          expire at generated points of the 13 x 5 s retry loop (virtual
+          clock installed as treadmill.presence.time).
 """
 
 from hypothesis import strategies as st
@@ -34,9 +40,17 @@ RULE = (
     'flight on two hosts at the same time, or (b) a delete callback for '
     'container k ran on a host that had already registered a newer container '
     'of the same instance, or (c) a session expired between two ZooKeeper '
-    'calls of one callback. kind=unreg (10%): non-trivial = a node in the '
-    'scope of the call names another host. kind=unsched (10%): non-trivial '
+    'calls of one callback. kind=unreg (5%): non-trivial = a node in the '
+    'scope of the call names another host. kind=unsched (5%): non-trivial '
     '= stale event (instance scheduled, placed on another host, not here). '
+    'kind=register (10%): real EndpointPresence.register_* of a new '
+    'container (own session) against running/endpoint/identity nodes held '
+    'by 1-2 older sessions (same host = identical content, other host, same '
+    'or different real_port) that expire at a generated virtual time, before '
+    'a generated ZooKeeper call of the new session, or never; after a normal '
+    'return every node must be the registering session\'s own ephemeral and '
+    'survive the expiry of all other sessions; non-trivial = the call had to '
+    'sleep at least once or met a foreign node with identical content. '
     'distinct = canonical JSON of the case.'
 )
 ASSUMPTIONS = [
@@ -53,6 +67,9 @@ ASSUMPTIONS = [
     '_safe_delete cannot be closed with ZooKeeper\'s API and is not claimed',
     'callbacks of one process are serial; thread races between kazoo\'s '
     'watch thread and the service loop are out of scope',
+    'kind=register: treadmill.presence.time is a virtual clock; old sessions '
+    'expire only inside time.sleep or right before a ZooKeeper call of the '
+    'registering session',
 ]
 TRUSTED = ['pbt/fakezk.py', 'pbt/presence_sim.py']
 BUDGET = {'quick': 48000, 'thorough': 800000}
@@ -61,108 +78,205 @@ _KINDS = (['step'] * 10 + ['fin'] * 2 + ['wat'] * 3 + ['move'] * 3 +
           ['new'] * 1 + ['del'] * 2 + ['exp'] * 2 + ['rst'] * 1 +
           ['kill'] * 1)
 
-_IDENT = st.sampled_from([None, None, ['g', 0], ['g', 0], ['g', 1],
-                          ['g', None]])
-_EPS = st.lists(st.integers(0, 2), min_size=0, max_size=3, unique=True)
 
 
-@st.composite
-def _new(draw, ninst, nhosts):
-    return ['new', draw(st.integers(0, ninst - 1)),
-            draw(st.integers(0, nhosts - 1)), sorted(draw(_EPS)),
-            draw(_IDENT)]
+_IDENT_TABLE = (None, None, ['g', 0], ['g', 0], ['g', 1], ['g', None])
 
 
-@st.composite
-def sched_case(draw):
-    nhosts = draw(st.sampled_from([2, 2, 3]))
-    ninst = draw(st.sampled_from([1, 1, 2]))
-    ops = [draw(_new(1, nhosts))]
-    lead = draw(st.integers(0, 3))
-    if lead:
+def _dec_new(num, ninst, nhosts):
+    """['new', inst, host, endpoint subset, identity] from one integer."""
+    num, inst = divmod(num, ninst)
+    num, host = divmod(num, nhosts)
+    num, mask = divmod(num, 8)
+    num, ident = divmod(num, len(_IDENT_TABLE))
+    eps = [idx for idx in range(3) if mask & (1 << idx)]
+    ident = _IDENT_TABLE[ident]
+    return ['new', inst, host, eps, None if ident is None else list(ident)]
+
+
+def _dec_op(code, ninst, nhosts):
+    """One integer -> one op (a 'move' expands to new+del+steps). Few big
+    draws instead of many small ones: Hypothesis spends most of the time in
+    draw bookkeeping otherwise. code 0 is the simplest op (step 0)."""
+    num, kind = divmod(code, len(_KINDS))
+    kind = _KINDS[kind]
+    if kind == 'step':
+        return [['step', num % 3]]
+    if kind == 'fin':
+        return [['fin', num % 3]]
+    if kind == 'wat':
+        return [['wat', num % 4]]
+    if kind == 'new':
+        return [_dec_new(num, ninst, nhosts)]
+    if kind == 'del':
+        num, inst = divmod(num, ninst)
+        return [['del', inst, (0, 0, 0, 1, 2)[num % 5]]]
+    if kind == 'move':
+        # the hazard: next container is requested while the clean-up of
+        # the previous one is still to come
+        num, order = divmod(num, 2)
+        num, burst = divmod(num, 9)
+        num, newnum = divmod(num, 2 * 3 * 8 * len(_IDENT_TABLE))
+        new = _dec_new(newnum, ninst, nhosts)
+        dele = ['del', new[1], 0]
+        ops = [new, dele] if order else [dele, new]
+        for _s in range(burst):
+            num, who = divmod(num, 3)
+            ops.append(['step', who])
+        return ops
+    if kind == 'exp':
+        num, host = divmod(num, nhosts)
+        return [['exp', host, num % 2]]
+    if kind == 'rst':
+        num, host = divmod(num, nhosts)
+        return [['rst', host, num % 2]]
+    return [['kill', num % nhosts]]
+
+
+def _decode_sched(raw):
+    """bytes -> case: 5 header bytes, then 5 bytes (one integer) per op."""
+    nhosts = (2, 2, 3)[raw[0] % 3]
+    ninst = (1, 1, 2)[raw[1] % 3]
+    ops = [_dec_new(raw[2] + (raw[3] << 8), 1, nhosts)]
+    if raw[4] % 4:
         ops.append(['fin', 0])
-    for _ in range(draw(st.integers(3, 40))):
-        kind = draw(st.sampled_from(_KINDS))
-        if kind == 'step':
-            ops.append(['step', draw(st.integers(0, 2))])
-        elif kind == 'fin':
-            ops.append(['fin', draw(st.integers(0, 2))])
-        elif kind == 'wat':
-            ops.append(['wat', draw(st.integers(0, 3))])
-        elif kind == 'new':
-            ops.append(draw(_new(ninst, nhosts)))
-        elif kind == 'del':
-            ops.append(['del', draw(st.integers(0, ninst - 1)),
-                        draw(st.sampled_from([0, 0, 0, 1, 2]))])
-        elif kind == 'move':
-            # the hazard: next container is requested while the clean-up of
-            # the previous one is still to come
-            new = draw(_new(ninst, nhosts))
-            dele = ['del', new[1], 0]
-            pair = [new, dele] if draw(st.booleans()) else [dele, new]
-            ops.extend(pair)
-            for _s in range(draw(st.integers(0, 8))):
-                ops.append(['step', draw(st.integers(0, 2))])
-        elif kind == 'exp':
-            ops.append(['exp', draw(st.integers(0, nhosts - 1)),
-                        draw(st.integers(0, 1))])
-        elif kind == 'rst':
-            ops.append(['rst', draw(st.integers(0, nhosts - 1)),
-                        draw(st.integers(0, 1))])
-        elif kind == 'kill':
-            ops.append(['kill', draw(st.integers(0, nhosts - 1))])
+    for pos in range(5, len(raw) - 4, 5):
+        code = int.from_bytes(raw[pos:pos + 5], 'little')
+        ops.extend(_dec_op(code, ninst, nhosts))
     return {'kind': 'sched', 'hosts': nhosts, 'ops': ops}
 
 
-_OWNER = st.sampled_from([None, 0, 0, 1, 2])
+def sched_case():
+    # one binary draw (3..40 ops): cheapest thing Hypothesis can generate
+    return st.binary(min_size=5 + 3 * 5, max_size=5 + 40 * 5).map(
+        _decode_sched)
 
 
-@st.composite
-def unreg_case(draw):
+class _Reader(object):
+    """Consumes the bytes of one binary draw; 0 once they run out."""
+
+    def __init__(self, raw):
+        self.raw = raw
+        self.pos = 0
+
+    def pick(self, options):
+        byte = self.raw[self.pos] if self.pos < len(self.raw) else 0
+        self.pos += 1
+        if isinstance(options, int):
+            return byte % options
+        return options[byte % len(options)]
+
+    def eps(self):
+        mask = self.pick(8)
+        return [idx for idx in range(3) if mask & (1 << idx)]
+
+    def ident(self):
+        ident = self.pick(_IDENT_TABLE)
+        return None if ident is None else list(ident)
+
+
+_OWNER = (None, 0, 0, 1, 2)
+
+
+def _decode_unreg(rdr):
     apps = []
-    for _ in range(draw(st.integers(1, 2))):
+    for _ in range(1 + rdr.pick(2)):
         apps.append({
-            'eps': sorted(draw(_EPS)),
-            'ident': draw(_IDENT),
-            'placed': draw(st.booleans()),
-            'running': draw(_OWNER),
-            'ep_owner': draw(st.lists(_OWNER, min_size=0, max_size=3)),
-            'ident_owner': draw(_OWNER),
+            'eps': rdr.eps(),
+            'ident': rdr.ident(),
+            'placed': bool(rdr.pick(2)),
+            'running': rdr.pick(_OWNER),
+            'ep_owner': [rdr.pick(_OWNER) for _e in range(rdr.pick(4))],
+            'ident_owner': rdr.pick(_OWNER),
         })
     return {
         'kind': 'unreg',
-        'me': draw(st.sampled_from([0, 0, 1, 2])),
-        'caller': draw(st.sampled_from(['self', 'admin'])),
-        'call': draw(st.sampled_from(['running', 'endpoints', 'identity',
-                                      'kill'])),
+        'me': rdr.pick((0, 0, 1, 2)),
+        'caller': rdr.pick(('self', 'admin')),
+        'call': rdr.pick(('running', 'endpoints', 'identity', 'kill')),
         'apps': apps,
-        'target': draw(st.integers(0, 1)),
+        'target': rdr.pick(2),
     }
 
 
-@st.composite
-def unsched_case(draw):
+def _decode_unsched(rdr):
     insts = []
-    for _ in range(draw(st.integers(1, 3))):
+    for _ in range(1 + rdr.pick(3)):
         insts.append({
-            'placed': draw(st.lists(st.integers(0, 2), min_size=0,
-                                    max_size=2, unique=True)),
-            'scheduled': draw(st.sampled_from([True, True, True, False])),
+            'placed': rdr.pick(([], [0], [1], [2], [0, 1], [0, 2], [1, 2])),
+            'scheduled': rdr.pick((True, True, True, False)),
         })
     return {
         'kind': 'unsched',
-        'me': draw(st.integers(0, 2)),
-        'via': draw(st.sampled_from(['direct', 'publish'])),
-        'event': draw(st.sampled_from(['finished', 'killed', 'aborted',
-                                       'service_running', 'configured',
-                                       'pending'])),
+        'me': rdr.pick(3),
+        'via': rdr.pick(('direct', 'publish')),
+        'event': rdr.pick(('finished', 'killed', 'aborted',
+                           'service_running', 'configured', 'pending')),
         'insts': insts,
-        'target': draw(st.integers(0, 2)),
+        'target': rdr.pick(3),
     }
 
 
+_OLD = (None, 0, 0, 1)
+_END_T = (0, 3, 5, 10, 12, 30, 55, 60, 61, 64, 65, 66, 70, 100, 128, 130,
+          135, 200)
+
+
+def _decode_register(rdr):
+    me = rdr.pick(3)
+    old = []
+    for _ in range(rdr.pick((1, 1, 2))):
+        how = rdr.pick(3)
+        if how == 0:
+            end = None
+        elif how == 1:
+            end = ['t', rdr.pick(_END_T)]
+        else:
+            end = ['op', 1 + rdr.pick(12)]
+        old.append({
+            # mostly the same host: container restarted in place
+            'host': rdr.pick((me, me, me, me + 1, me + 2)) % 3,
+            'same_port': bool(rdr.pick(2)),
+            'end': end,
+        })
+    return {
+        'kind': 'register',
+        'me': me,
+        'call': rdr.pick(('register', 'register', 'seq', 'identity',
+                          'running', 'endpoints')),
+        'eps': rdr.eps(),
+        'ident': rdr.ident(),
+        'old': old,
+        'held': {
+            'running': rdr.pick(_OLD),
+            'ident': rdr.pick(_OLD),
+            'eps': [rdr.pick(_OLD) for _e in range(rdr.pick(4))],
+        },
+    }
+
+
+def _decode_any(raw):
+    # weights 80% sched, 5% unreg, 5% unsched, 10% register. Everything is
+    # decoded from ONE binary draw: with further draws behind some values of
+    # the first byte Hypothesis re-uses those prefixes and the share of sched
+    # cases fell to under 50%.
+    pick = raw[0] % 20
+    if pick == 16:
+        return _decode_unreg(_Reader(raw[1:]))
+    if pick == 17:
+        return _decode_unsched(_Reader(raw[1:]))
+    if pick in (18, 19):
+        return _decode_register(_Reader(raw[1:]))
+    return _decode_sched(raw[1:])
+
+
+def _any_case():
+    return st.binary(min_size=1 + 5 + 3 * 5,
+                     max_size=1 + 5 + 40 * 5).map(_decode_any)
+
+
 def strategy(tier):
-    return st.one_of([sched_case()] * 8 + [unreg_case(), unsched_case()])
+    return _any_case()
 
 
 def execute(case, stats):
@@ -172,6 +286,8 @@ def execute(case, stats):
         return sim.run_unregister(case, stats)
     if kind == 'unsched':
         return sim.run_unschedule(case, stats)
+    if kind == 'register':
+        return sim.run_register(case, stats)
     flags = sim.run_schedule(case, stats)
     for flag in sorted(flags):
         stats.count('class:' + flag)
@@ -204,6 +320,27 @@ def fixed_cases():
             ['new', 0, 0, ep, None], ['fin', 0], ['kill', 0],
             ['new', 0, 1, ep, None], ['fin', 0], ['del', 0, 0],
             ['fin', 0]]}),
+        # blackout of A, instance moves to B, then comes back to A whose
+        # service still remembers the nodes it registered before the kill
+        ('kill-move-return', {'kind': 'sched', 'hosts': 2, 'ops': [
+            ['new', 0, 0, ep, None], ['fin', 0], ['kill', 0],
+            ['new', 0, 1, ep, None], ['fin', 0],
+            ['new', 0, 0, ep, None], ['fin', 0], ['del', 0, 0],
+            ['fin', 0]]}),
+        # container restarted in place (own session each, docker runtime):
+        # the dead container's session still owns identical running/identity
+        # nodes and expires 12 s into the retry loop
+        ('register-restart-in-place', {
+            'kind': 'register', 'me': 0, 'call': 'seq', 'eps': [0],
+            'ident': ['g', 0],
+            'old': [{'host': 0, 'same_port': False, 'end': ['t', 12]}],
+            'held': {'running': 0, 'ident': 0, 'eps': [0]}}),
+        # the old owner never goes away: ContainerSetupError, not success
+        ('register-owner-stays', {
+            'kind': 'register', 'me': 0, 'call': 'register', 'eps': [0, 1],
+            'ident': None,
+            'old': [{'host': 1, 'same_port': True, 'end': None}],
+            'held': {'running': None, 'ident': None, 'eps': [None, 0]}}),
         # witnesses of the findings of round 1 (see notes/C17-notes.md):
         # service restart replays the request dir newest-first, the old
         # request takes /running over, its clean-up unregisters the new one
